@@ -66,6 +66,12 @@ CLAIMS.update({
     "C16": ("e4-servertask", "model_checking",
             "AddressFilter.tla (Matches, WildcardClass) evaluated by TLC judges the hook-reported filter decision and the peer's view for filters {any, exact, set, wildcard lattice} x aliased loopback sources (IPv4 and ::1) x {TCP, TLS, TLS+authz} x {Rust API, C ABI}, and 3 000+ wildcard strings through WildcardIPv4::from_str and rodbus_address_filter_create",
             "§7 C16", TRUST + "loopback aliases stand for remote addresses"),
+    "C18": ("e5-ffi", "model_checking",
+            "FfiTrace.tla holds the conversion tables (WriteResult -> exception byte, exception / error -> request_error value, param_error for argument errors), the wire encoding and decoding (ModbusPdu.tla) and the completion protocol; every scenario is executed through the extern \"C\" functions (C-ABI server with programmable write callbacks observed by a raw client; C-ABI client channel against a scripted peer) and the recorded return codes, wire bytes, callback invocations (which, payload, count) and on_destroy counts are validated by TLC",
+            "§7 C18", TRUST + "rodbus-ffi linked as rlib; language wrappers above the C ABI not exercised; for calls that report an argument error the error value passed to the completion is not prescribed, only that it fires exactly once"),
+    "C19": ("e5-ffi", "model_checking",
+            "per-type map semantics of the C-ABI database (add / update / delete / get, client reads, exception 02 on absent points) validated by TLC on random transaction / read sequences through rodbus_server_update_database and a raw client; atomicity: design-level all-interleavings model FfiDatabase_MC (lock per transaction holds, lock per operation is refuted as negative control) plus a stress run on the real code (writers setting a 125-register / 2000-coil block to one value, readers requiring uniform blocks)",
+            "§7 C19", TRUST + "atomicity on the real code is stress-sampled, as the property itself says"),
 })
 
 ENGINES = [
@@ -77,6 +83,8 @@ ENGINES = [
      "kind_free_text": "production TcpChannelTask (enable / connect / retry / listener / request loop) with a harness connector under virtual time; validated by TLC against the life-cycle part of Client.tla"},
     {"name": "e4-servertask", "path": "harness/src/bin/e4_server.rs + spec/ServerTaskTrace.tla + AddressFilter.tla + TlsAdmission.tla",
      "kind_free_text": "TCP / TLS servers created through the public Rust and C ABI constructors, driven black-box over loopback sockets (real time) plus guarded hook events of the server task; validated by TLC"},
+    {"name": "e5-ffi", "path": "harness/src/bin/e5_ffi.rs + spec/FfiTrace.tla + spec/FfiDatabase_MC.tla",
+     "kind_free_text": "the C ABI through rodbus_ffi::ffi::rodbus_* (rlib): write-result forwarding, client operations against a scripted peer, point database sequences and atomicity stress; validated by TLC"},
 ]
 
 
